@@ -97,11 +97,15 @@ Key(e) ==
       [] e.e = "Solve" /\ e.op = "composite" -> <<"C", e.w>>
       [] OTHER -> <<"S", <<e.w, e.uplo, e.rm, e.si, e.ty>>>>
 \* completeness of the finite configuration space: evaluated when the table ends
-Expected ==
-    {<<"P", c>> : c \in ProdConfigs} \cup {<<"H", c>> : c \in HermConfigs} \cup {<<"S", c>> : c \in SolveConfigs}
-    \cup {<<"C", c>> : c \in Composites}
+\* the driver is built in three parts (products / solves / two-matrix shift-invert + composites), each with its own table
+ExpectedOf(part) ==
+    (IF part \in {"all", "prod"} THEN ({<<"P", c>> : c \in ProdConfigs} \ {<<"P", c>> : c \in {x \in ProdConfigs : x[1] = "SparseRegularInverse"}}) \cup {<<"H", c>> : c \in HermConfigs} ELSE {})
+    \cup (IF part \in {"all", "solve"} THEN {<<"S", c>> : c \in SolveConfigs} \cup {<<"P", c>> : c \in {x \in ProdConfigs : x[1] = "SparseRegularInverse"}} ELSE {})
+    \cup (IF part \in {"all", "ssi"} THEN {<<"C", c>> : c \in Composites} ELSE {})
 SSISeen == {k[2] : k \in {x \in seen : x[1] = "I"}}
-EndMatOpHits == If(Expected \subseteq seen, "ConfigSpaceComplete") \cup If(Cardinality(SSISeen) = 64, "ShiftInvert64Combinations")
+EndMatOpHits(e) ==
+    If(ExpectedOf(e.part) \subseteq seen, "ConfigSpaceComplete")
+    \cup (IF e.part \in {"all", "ssi"} THEN If(Cardinality(SSISeen) = 64, "ShiftInvert64Combinations") ELSE {})
 
 TrInit == l = 1 /\ mon = {} /\ cov = [key \in CovKeys |-> 0] /\ seen = {}
 TrStep ==
@@ -112,7 +116,7 @@ TrStep ==
                                  [] e.e = "Prod" -> ProdHits(e)
                                  [] e.e = "HProd" -> HProdHits(e)
                                  [] e.e = "Solve" -> SolveHits(e)
-                                 [] e.e = "EndMatOp" -> EndMatOpHits
+                                 [] e.e = "EndMatOp" -> EndMatOpHits(e)
                                  [] e.e = "Qr" -> QrHits(e)
                                  [] e.e = "Eig" -> EigHits(e)
                                  [] e.e \in {"Reset", "EndBk", "EndKernels"} -> {}
